@@ -47,8 +47,8 @@ PROPS = {
                       "is payload+3; all indexing in bounds, every unwrap/unimplemented unreachable, the loop terminates on finite streams.",
         "level_note": "Assumed contracts of futures-io/futures-lite read and write_all (contracts/io.pre.rs); streams are finite and shorter "
                       "than 2^64-3 bytes; byte-string literal axioms are generated from the literal tokens; async/.await removed (D1/D2): "
-                      "cancellation between chunks is not covered. EventReceiver does not meet the reader contract's 'Ok(0) only at end of "
-                      "stream' reading (an event with empty data encodes to 0 bytes) -- recorded under C11 (not applicable).",
+                      "cancellation between chunks is not covered. The reader contract's 'Ok(0) only at end of "
+                      "stream' is proved for EventReceiver::poll_read in unit sse (C11; it did not hold before the repair 371a514: an event with empty data encoded to 0 bytes).",
         "verus": ["chunked"],
         "verus_thorough": [],
         "kani": [],
@@ -63,6 +63,31 @@ PROPS = {
         "not_covered": [
             "cancellation of the future between chunks",
             "the call site in write_http_response (format!-built head; see C06)",
+        ],
+    },
+    "C11": {
+        "title": "Server-sent events: the encoder under contract and read back by an EventSource client (deductive); delivery order, exactly-once and stream end over a live server (bounded)",
+        "design_ref": "DESIGN.md section 3 (C11)",
+        "technique": "Verus contracts on the real Event::write_to, Event::custom and EventSender::send / disconnect / is_connected (src/event.rs; write! through rule R12 on a byte-slice sink, the line splitter through a rule-S1 stand-in) against a block specification, plus theorems over that specification: an EventSource client written from the WHATWG text dispatches exactly the event sent; the queue, the threads and the response writer only by a bounded stand-in over a live server",
+        "level_text": "Deductive proof for every event: write_to hands the body writer exactly the block enc(e) -- an `event:` field iff the event has a type, one `data:` field per line of the data, lines split at CRLF, LF and CR -- reports its UTF-8 length and never reports 0 bytes (the body writer reads 0 as the end of the stream, so no event content can end it); Event::custom refuses exactly the types containing CR or LF. Theorems over enc: a client with empty buffers that receives enc(e), a blank line and anything else dispatches exactly one event with e's type (`message` when none) and e's data with line ends as LF (exactly the data when it has no CR), leaves the last-event-id and the reconnection time alone and continues with empty buffers (thm_event_reads_back); a sequence of blocks is dispatched exactly once each in order (thm_stream_in_order). EventSender: send never leaves a sender connected whose event the queue did not take, a disconnected sender stays disconnected. EventReceiver::poll_read: a 0-byte read (the end of the stream) is reported when and only when the queue reports that every sender is gone; Pending iff the queue is pending; a received event is handed on as its whole block.",
+        "level_note": "Partial claim with one open known finding: the block is not ended by a blank line (tests/event.rs pins the bytes `data: msg1\\n`), so a conforming client never dispatches; the theorems supply the blank line. Not within the technique: the bounded queue between sender threads and the response writer, exactly-once delivery and the terminating chunk under real concurrency -- bounded only (stand-in c11: live server, one event per chunk, 30-40 events in order, contents that must not end the stream, two senders, overrun of the queue of 50). Assumed: the rule-S1 stand-ins (byte slice as io::Write with UTF-8 lengths additive; the line splitter = lines_of, compared with the real expression by c11 on all strings over a 6-letter alphabet up to length 5), try_send does not block.",
+        "verus": ["sse"],
+        "verus_thorough": [],
+        "kani": [],
+        "witness": "c11",
+        "assumptions": [
+            "rule S1: `mut buf: &mut [u8]` -> SliceSink (std's impl Write for &mut [u8]: bytes copied to the front, slice advanced, WriteZero when it does not fit; len() + UTF-8 length of what was written == original length)",
+            "rule S1: `data.replace(\"\\r\\n\", \"\\n\").split(|c| c == '\\n' || c == '\\r')` -> sse_lines(data) with the meaning lines_of (assumed; compared with the real expression by c11)",
+            "rule S1: str::contains(char) -> str_has_char; rule R5: the error text of Event::custom is opaque",
+            "assumed: SyncSender::try_send never blocks and reports whether the queue took the value (queue_takes is uninterpreted)",
+            "rule S1 on poll_read: `mut self: Pin<&mut Self>` -> `&mut self`, `Pin::new(&mut self.0).poll(cx)` -> recv_poll(&mut self.0, cx) (its answer is the uninterpreted last_poll), `futures_io::AsyncRead` -> a one-method stand-in trait",
+            "utf8_len is uninterpreted with additivity, >= character count, 0 for the empty text",
+        ],
+        "not_covered": [
+            "Event::push_to (same text as write_to on a Vec<u8>; compared byte for byte with write_to by c11)",
+            "the blocking Read::read of EventReceiver (same three arms as poll_read; not used by the server)",
+            "ordering / exactly-once / queue overrun / sender outliving the client under real concurrency: bounded c11 only",
+            "the closing blank line (open known finding)",
         ],
     },
     "C14": {
@@ -556,7 +581,7 @@ PROPS = {
 # are listed in its evidence as notes (they are another property's alarm, or an unproved supporting contract).
 UNIT_OWNER = {
     "time": "C16", "chunked": "C07", "headers": "C14", "copy": "C09", "body": "C09", "conn": "C05", "head": "C01",
-    "parse": "C02", "logset": "C19", "logwriter": "C19", "jsonl": "C17", "cookie": "C15", "timefmt": "C16", "tryread": "C02", "logwrap": "C18", "cookiereq": "C15", "framing": "C03", "respguard": "C06", "respwrite": "C06", "errresp": "C20",
+    "parse": "C02", "logset": "C19", "logwriter": "C19", "jsonl": "C17", "cookie": "C15", "timefmt": "C16", "tryread": "C02", "logwrap": "C18", "cookiereq": "C15", "framing": "C03", "respguard": "C06", "respwrite": "C06", "errresp": "C20", "sse": "C11",
 }
 SCOPE = {
     # total request reading also needs the parsers to be panic-free
@@ -595,7 +620,6 @@ def attribute(unit_name, ob_id):
 
 NOT_APPLICABLE = {
     "C10": "about destructor execution at scope exit, future cancellation and panic (Rust drop semantics + temp-file's Drop + the file system); no statement in /repo to attach an obligation to, and neither verifier models drop timing or the file system",
-    "C11": "sender / writer interleavings are concurrency (bounded channel between threads); the encoder is write! + str::lines, outside both verifiers; the one contract-level fact -- EventReceiver can return Ok(0) for an event with empty data, which copy_chunked_async's contract reads as end of stream -- is recorded in C07's assumptions",
     "C12": "the slot pool is a channel mutated through &self from several tasks / threads and refilled in Drop; expressing it needs Verus' atomic-invariant machinery inside the real types, and Kani has no thread or channel support",
     "C13": "a liveness / race property of accept_loop's await points against permit revocation; deductive contracts on sequentialised code cannot express it",
 }
